@@ -25,6 +25,7 @@ PARTS = {
       C('cmp-rawsizes-a', 'base', 'dom=raw1,raw3,raw4,raw7,raw9', 'grid=large'),
       C('cmp-rawsizes-b', 'base', 'dom=raw12,raw16', 'grid=large'),
       C('cmp-rawsizes-c', 'base', 'dom=raw20,raw21', 'grid=large'),
+      C('cmp-rawbig', 'base', 'dom=rawbig', 'grid=large'),
       C('cmp-int-asan', 'asan', 'dom=int', 'grid=large'),
       C('cmp-float-type-asan', 'asan', 'dom=float,type', 'grid=large'),
       C('cmp-string4-asan', 'asan', 'dom=string', 'grid=large'),
@@ -32,6 +33,7 @@ PARTS = {
       C('cmp-rawsizes-a-asan', 'asan', 'dom=raw1,raw3,raw4,raw7,raw9', 'grid=large'),
       C('cmp-rawsizes-b-asan', 'asan', 'dom=raw12,raw16', 'grid=large'),
       C('cmp-rawsizes-c-asan', 'asan', 'dom=raw20,raw21', 'grid=large'),
+      C('cmp-rawbig-asan', 'asan', 'dom=rawbig', 'grid=large'),
     ],
   },
   'C10': {
@@ -43,8 +45,10 @@ PARTS = {
     'thorough': [
       X('hash-values', 'base', 'part=all', 'dom=int,float,string,raw,ref,box,type', 'grid=large'),
       X('hash-rawsizes', 'base', 'part=values,pairs,ops', 'dom=raw1,raw3,raw4,raw7,raw9,raw12,raw16,raw20,raw21', 'grid=large'),
+      X('hash-rawbig', 'base', 'part=values,pairs,ops', 'dom=rawbig', 'grid=large'),
       X('hash-int-asan', 'asan', 'part=values,pairs,ops', 'dom=int', 'grid=large'),
       X('hash-others-asan', 'asan', 'part=all', 'dom=float,string,raw,ref,box,type', 'grid=large'),
+      X('hash-rawbig-asan', 'asan', 'part=values,pairs,ops', 'dom=rawbig', 'grid=large'),
       X('hash-rawsizes-asan', 'asan', 'part=values,pairs,ops', 'dom=raw1,raw3,raw4,raw7,raw9,raw12,raw16,raw20,raw21', 'grid=large'),
     ],
   },
@@ -54,10 +58,10 @@ RULES = {
   'C09': ('value-type grids (h_cmp.c): every ordered pair and every triple of each boundary grid is executed on the real cmp/eq/neq/lt/gt/le/ge; '
           'distinct_nontrivial = pairs of different values with a boundary feature (Int difference outside int32 or overflowing int64; Float pair '
           'involving a zero, a denormal or an infinity; String pair where one is a prefix of the other or the first differing byte is >= 0x80; '
-          'Type names sharing a prefix; struct pair (sizes 1,3,4,7,8,9,12,16,20,21 bytes) whose first differing byte is >= 0x80 or is the last byte) + triples that form a strict chain a<b<c or a>b>c in the '
+          'Type names sharing a prefix; struct pair (sizes 1,3,4,7,8,9,12,16,20,21 and 63,64,65,72,100,127,128,129,200,300 bytes) whose first differing byte is >= 0x80 or is the last byte) + triples that form a strict chain a<b<c or a>b>c in the '
           'reference order (transitivity premise holds) + completed Tree/Table insert/lookup/iterate/remove histories over the grid'),
   'C10': ('value-type grids (h_hash.c): distinct_nontrivial = (value, allocation class / operation) cases in which the object under test is a '
           'different object from the stack witness (heap, root, Array/List element, Table/Tree key and value, copy, assign into fresh / into an '
-          'object holding another value, both sides of swap on heap / stack / Array-embedded objects, Array sort of the whole grid; plain structs of 1,3,4,7,8,9,12,16,20,21 bytes exercise every tail length of the default memcmp/hash_data/memcpy/memswap) + pairs of different representations of equal values (signed zeros, Type twins) + '
+          'object holding another value, both sides of swap on heap / stack / Array-embedded objects (guard elements and canary zones must keep every byte), Array element against stack object, Array sort of the whole grid; plain structs of 1,3,4,7,8,9,12,16,20,21 bytes exercise every tail length of the default memcmp/hash_data/memcpy/memswap, structs of 63,64,65,72,100,127,128,129,200,300 bytes every remainder of a 64/128-byte block-wise copy) + pairs of different representations of equal values (signed zeros, Type twins) + '
           'hash_data cases with a tail (len % 8 != 0) or a misaligned start'),
 }
